@@ -217,7 +217,8 @@ RANDOM_PROGRAMS = {
     'C05': CROSS,
     'C13': PUNCTP,
     'C14': [[NEGRA, BIN], [NEGRA, BINB], [COL, UNC], [NEGRA, BIN, COL, UNC]],
-    'C15': [[NEGRA]],
+    'C15': [[NEGRA], [op('mark_heads_by_rules', preset='negra')], [op('mark_heads_by_rules', preset='ptb')],
+            [op('mark_heads_by_rules', preset='foo')], [op('mark_heads_by_rules')]],
     'C11': [[PDEL], [PTBS[0]], [PTBS[1]], [PTBS[3]], [INS[5]], [SUB[4]], [SUB[5]], [FILT[4]], [PDEL, INS[2]],
             [op('delete_terminal', pos=1)], [op('delete_terminal', pos=2), PDEL]],
     'C04': [[ROOT_ATTACH, NEGRA, SPLIT, RAISE, TOP], [ROOT_ATTACH, PVL, NEGRA, BIN, COL, UNC],
